@@ -64,6 +64,10 @@ Definition rs_supported (s : rstate) : bool := match s with RSSupported => true 
 Definition rs_set (s : rstate) (capable : bool) : rstate :=
   match s with RSUnknown => if capable then RSSupported else RSUnsupported | _ => s end.
 
+(* registry/remote/utils.go defaultMaxMetadataBytes (regenerated) and the effective limit *)
+Definition eff_limit (max_metadata_bytes : N) : N :=
+  if max_metadata_bytes =? 0 then Z.to_N c13_defaultMaxMetadataBytes else max_metadata_bytes.
+
 Definition zero_digest : str := zeroDigest.              (* registry/remote/referrers.go *)
 
 Definition nstr (o : option str) : str := match o with Some s => s | None => [] end.
@@ -75,6 +79,9 @@ Section Client.
   Variable subject_of : str -> option (option desc).
   Variable main other : str.
   Variable user_mts : list str.                  (* Repository.ManifestMediaTypes *)
+  (* effective Repository.MaxMetadataBytes (the regenerated default when <= 0): limitSize on
+     the descriptor of a manifest the client decodes, and the bound on the body it hashes *)
+  Variable limit : N.
 
   Variable srv : Type.
   Variable exch : srv -> request -> srv * response.
@@ -128,7 +135,8 @@ Section Client.
               let cd : option str :=
                 match srvd with
                 | [] => if hd then (match refd with [] => None | _ => Some refd end)
-                        else Some (H (r_body r))
+                        (* calculateDigestFromResponse: a body over the limit is refused *)
+                        else if limit <? len (r_body r) then None else Some (H (r_body r))
                 | _ => Some srvd
                 end in
               match cd with
@@ -162,7 +170,12 @@ Section Client.
         else
           let q := mkReq PUT lrepo lep (Some (d_dg d)) None None (Some ct_octet) (Some (d_sz d)) None c in
           let '(s2, r2) := exch s q in
-          (s2, [(q, r2)], if r_status r2 =? 201 then ROk else status_err r2)
+          (s2, [(q, r2)],
+           if r_status r2 =? 201 then
+             (* a well-formed digest reported for the uploaded blob must be the expected one *)
+             if valid_digest (nstr (r_dig r2)) && negb (str_eqb (nstr (r_dig r2)) (d_dg d)) then RErr EOther
+             else ROk
+           else status_err r2)
     end.
 
   Definition blob_push (s : srv) (d : desc) (c : str) : srv * trace * result :=
@@ -222,7 +235,11 @@ Section Client.
             | None =>
                 let '(s2, t2, res) := blob_resolve s1 rs in
                 (s2, (q, r) :: t2,
-                 match res with RDesc d => RDescBytes d (r_body r) | _ => res end)
+                 match res with
+                 | RDesc d => (* the body comes from the GET: its digest header must not contradict *)
+                     if verify_digest r (d_dg d) then RDescBytes d (r_body r) else RErr EOther
+                 | _ => res
+                 end)
             | Some _ =>
                 (s1, [(q, r)],
                  match gen_blob_desc r rf with Some d => RDescBytes d (r_body r) | None => RErr EOther end)
@@ -287,7 +304,10 @@ Section Client.
           | None =>
               let '(s2, t2, res) := man_resolve s1 rs in
               (s2, (q, r) :: t2,
-               match res with RDesc d => RDescBytes d (r_body r) | _ => res end)
+               match res with
+               | RDesc d => if verify_digest r (d_dg d) then RDescBytes d (r_body r) else RErr EOther
+               | _ => res
+               end)
           | Some _ =>
               (s1, [(q, r)],
                match gen_desc r rf false with Some d => RDescBytes d (r_body r) | None => RErr EOther end)
@@ -318,7 +338,10 @@ Section Client.
         if r_status r =? 200 then
           let sup := str_eqb (nstr (r_ctype r)) mt_index in
           (s1, rs_set rst sup, [(q, r)], Some sup)
-        else if r_status r =? 404 then (s1, rs_set rst false, [(q, r)], Some false)
+        else if r_status r =? 404 then
+          (* repository not found: an error, the capability stays unknown *)
+          if str_eqb (r_body r) name_unknown then (s1, rst, [(q, r)], None)
+          else (s1, rs_set rst false, [(q, r)], Some false)
         else (s1, rst, [(q, r)], None)
     end.
 
@@ -326,8 +349,9 @@ Section Client.
   Definition man_push (s : srv) (rst : rstate) (d : desc) (c : str) (rf : str)
     : srv * rstate * trace * result :=
     if indexable (d_mt d) && negb (rs_supported rst) then
-      (* content.ReadAll(r, expected) *)
-      if negb (len c =? d_sz d) || negb (str_eqb (H c) (d_dg d)) then (s, rst, [], RErr EOther)
+      (* limitSize(expected); content.ReadAll(r, expected) *)
+      if limit <? d_sz d then (s, rst, [], RErr EOther)
+      else if negb (len c =? d_sz d) || negb (str_eqb (H c) (d_dg d)) then (s, rst, [], RErr EOther)
       else
         let '(s1, rst1, t1, res) := man_put s rst d c true rf in
         match res with
@@ -345,6 +369,7 @@ Section Client.
   (* deleteWithIndexing *)
   Definition man_delete (s : srv) (rst : rstate) (d : desc) : srv * rstate * trace * result :=
     if indexable_del (d_mt d) && negb (rs_supported rst) then
+      if limit <? d_sz d then (s, rst, [], RErr EOther) else       (* limitSize(target) *)
       let '(s1, t1, res) := man_fetch s d in
       match res with
       | RBytes c =>
@@ -396,6 +421,8 @@ Section Client.
                | _ => (s1, rs_set rst false, [(q, r)], RErr EUnmodelled)
                end
         else if r_status r =? 404 then
+          if str_eqb (r_body r) name_unknown then (s1, rst, [(q, r)], RErr EOther)   (* NAME_UNKNOWN *)
+          else
           match rst with
           | RSSupported => (s1, rst, [(q, r)], RErr EOther)
           | _ => (s1, rs_set rst false, [(q, r)], RErr EUnmodelled)
@@ -447,7 +474,8 @@ Inductive corruption :=
 | KLenInc | KLenDrop
 | KTypeOther | KTypeGarbage | KTypeDrop
 | KStatus (st : N)
-| KLocDrop.
+| KLocDrop
+| KNameUnknown.            (* 404 with error code NAME_UNKNOWN *)
 
 Definition corrupt (k : corruption) (r : response) : response :=
   let '(mkResp st ct cl dg loc ar sj rf body) := r in
@@ -462,6 +490,7 @@ Definition corrupt (k : corruption) (r : response) : response :=
   | KTypeDrop => mkResp st None cl dg loc ar sj rf body
   | KStatus s => mkResp s ct cl dg loc ar sj rf body
   | KLocDrop => mkResp st ct cl dg None ar sj rf body
+  | KNameUnknown => mkResp 404 ct cl dg loc ar sj rf name_unknown
   end.
 
 (* server = registry + request counter; the k-th exchange is corrupted *)
@@ -471,6 +500,7 @@ Section Run.
   Variable subject_of : str -> option (option desc).
   Variable main other : str.
   Variable user_mts : list str.
+  Variable limit : N.
   Variable p : profile.
   Variable kor : option (N * corruption).
 
@@ -488,7 +518,7 @@ Section Run.
 
   Definition run_history (other_blobs : list (str * str)) (rst : rstate) (os : list op)
     : reg * list (trace * result) :=
-    let '(s, _, out) := run_ops H parse_mt subject_of main other user_mts (reg * N) cexch
+    let '(s, _, out) := run_ops H parse_mt subject_of main other user_mts limit (reg * N) cexch
                                 (reg0 other_blobs, 0) rst os in
     (fst s, out).
 End Run.
@@ -514,8 +544,9 @@ Definition read_chunk (m : bmode) (n : N) (rc : str) : str * str * bool :=
   let rest := skipn l rc in
   (got, rest, match rc with [] => true | _ => bm_eofd m && negb (is_nil got) && is_nil rest end).
 
-(* k_bi: how many bodies were opened after the first one (the i-th body behaves as [modes i]) *)
-Record rsc := mkRsc { k_rc : str; k_size : N; k_off : N; k_closed : bool; k_bi : nat }.
+(* k_bi: index of the body being read (the i-th body the server produced behaves as
+   [modes i]); k_nb: bodies produced so far; k_rq: Range requests sent so far *)
+Record rsc := mkRsc { k_rc : str; k_size : N; k_off : N; k_closed : bool; k_bi : nat; k_nb : nat; k_rq : nat }.
 
 Inductive whence := SeekStart | SeekCurrent | SeekEnd.
 Inductive sop := SRead (n : N) | SSeek (off : Z) (w : whence) | SClose.
@@ -525,52 +556,70 @@ Inductive sout :=
 | SErr
 | SClosed.
 
-(* the server side of a Range request on [content]: 206 + slice, or failure *)
-Definition range_body (content : str) (a bb : N) : option str :=
-  if (a <=? bb) && (bb <? len content) then Some (slice a bb content) else None.
+(* offset arithmetic is Go's int64: a sum that overflows wraps around *)
+Definition wrap64 (z : Z) : Z := ((z + 9223372036854775808) mod 18446744073709551616 - 9223372036854775808)%Z.
+
+Definition is_body_status (st : N) : bool := (st =? 200) || (st =? 206).
 
 Section Seek.
   Variable modes : nat -> bmode.
+  (* the answer to the i-th Range request "bytes=a-b" *)
+  Variable srv : nat -> N -> N -> response.
 
-  Definition rsc_step (content : str) (k : rsc) (o : sop) : rsc * list (N * N) * sout :=
+  Definition rsc_step (k : rsc) (o : sop) : rsc * list (N * N) * sout :=
     match o with
-    | SClose => (mkRsc (k_rc k) (k_size k) (k_off k) true (k_bi k), [], SClosed)
+    | SClose => (mkRsc (k_rc k) (k_size k) (k_off k) true (k_bi k) (k_nb k) (k_rq k), [], SClosed)
     | SRead n =>
         if k_closed k then (k, [], SErr)
         else
           let '(got, rest, eof) := read_chunk (modes (k_bi k)) n (k_rc k) in
           (* rsc.offset += int64(n), whatever err is *)
-          (mkRsc rest (k_size k) (k_off k + len got) false (k_bi k), [], SData got eof)
+          (mkRsc rest (k_size k) (k_off k + len got) false (k_bi k) (k_nb k) (k_rq k), [], SData got eof)
     | SSeek off w =>
         if k_closed k then (k, [], SErr)
         else
           let tgt : Z := match w with
                          | SeekStart => off
-                         | SeekCurrent => (off + Z.of_N (k_off k))%Z
-                         | SeekEnd => (off + Z.of_N (k_size k))%Z
+                         | SeekCurrent => wrap64 (off + Z.of_N (k_off k))
+                         | SeekEnd => wrap64 (off + Z.of_N (k_size k))
                          end in
           if (tgt <? 0)%Z then (k, [], SErr)
           else
             let t := Z.to_N tgt in
             if t =? k_off k then (k, [], SPos t)
-            else if k_size k <=? t then (mkRsc [] (k_size k) t false (k_bi k), [], SPos t)
+            else if k_size k <=? t then (mkRsc [] (k_size k) t false (k_bi k) (k_nb k) (k_rq k), [], SPos t)
             else
-              match range_body content t (k_size k - 1) with
-              | Some body => (mkRsc body (k_size k) t false (S (k_bi k)), [(t, k_size k - 1)], SPos t)
-              | None => (k, [(t, k_size k - 1)], SErr)
-              end
+              let r := srv (k_rq k) t (k_size k - 1) in
+              let nb := if is_body_status (r_status r) then S (k_nb k) else k_nb k in
+              let failed := mkRsc (k_rc k) (k_size k) (k_off k) false (k_bi k) nb (S (k_rq k)) in
+              if negb (r_status r =? 206) then (failed, [(t, k_size k - 1)], SErr)
+              (* a Content-Length that is not the length of the requested range is refused *)
+              else if match r_clen r with Some n => negb (n =? k_size k - t) | None => false end
+              then (failed, [(t, k_size k - 1)], SErr)
+              else (mkRsc (r_body r) (k_size k) t false (k_nb k) nb (S (k_rq k)), [(t, k_size k - 1)], SPos t)
     end.
 
-  Fixpoint rsc_run (content : str) (k : rsc) (os : list sop) : list (list (N * N) * sout) :=
+  Fixpoint rsc_run (k : rsc) (os : list sop) : list (list (N * N) * sout) :=
     match os with
     | [] => []
     | o :: rest =>
-        let '(k1, rq, out) := rsc_step content k o in
-        (rq, out) :: rsc_run content k1 rest
+        let '(k1, rq, out) := rsc_step k o in
+        (rq, out) :: rsc_run k1 rest
     end.
 End Seek.
 
-Definition rsc_open (content : str) (size : N) : rsc := mkRsc content size 0 false 0.
+Definition rsc_open (content : str) (size : N) : rsc := mkRsc content size 0 false 0 1 0.
+
+(* the registry model's answer to "GET blob d, Range: bytes=a-b" (Registry.handle), possibly
+   with the j-th answer corrupted in one field *)
+Definition range_srv (p : profile) (d content : str) (kor : option (nat * corruption))
+  : nat -> N -> N -> response :=
+  fun i a bb =>
+    let r := blob_resp p false d (Some content) (Some (a, bb)) in
+    match kor with
+    | Some (j, c) => if Nat.eqb i j then corrupt c r else r
+    | None => r
+    end.
 
 (* What blobStore.Fetch / blobStore.FetchReference hand back when the response says
    Accept-Ranges: bytes -- httputil.NewReadSeekCloser(client, req, resp.Body, SIZE) with SIZE
